@@ -1,4 +1,5 @@
 import WireV.Value
+import WireV.Tables
 import WireP.Lemmas.ValueProofs
 /-! # C13 — `wire.Value` expressions never call a function or receive from a channel
 
@@ -67,5 +68,16 @@ example : whitelistOk { currentWL with arrowRejected := false } (.unary true (.n
 /-- … and without a rejecting default a function literal is accepted -/
 example : whitelistOk { currentWL with defaultRejects := false } (.node "FuncLit" []) = true
     ∧ hasFuncLit (.node "FuncLit" []) = true := by decide
+
+/-! ## the written expression reaches the generated file unabridged (`copyAST`, regenerated tables) -/
+
+/-- every expression-level node kind has a case in `copyAST`, and that case carries over every child, child list and
+    value field (operator, literal text, the `Slice3` flag and `Max` of a full slice expression, `Ellipsis`, …) -/
+theorem value_copy_complete :
+    (exprKinds.filter (fun k => !(Generated.copyCases.map (·.1)).contains k)) = [] ∧
+    (copyMissing.filter (fun kf => exprKinds.contains kf.1)) = [] := by decide
+
+example : ("SliceExpr", "child") ∈ ((Generated.astNodes.find? (fun c => c.1 == "SliceExpr")).map
+    (fun c => c.2.filter (·.1 == "Max") |>.map (fun f => (c.1, f.2)))).getD [] := by decide
 
 end WireP.C13
